@@ -422,6 +422,9 @@ func Run(r *fw.Run) {
 	c09.Aliasing(r)
 	// overlapping prover calls (every interleaving at the reader callbacks), also after failed calls
 	c09.Overlap(r)
+	// virtual logs of up to 2^62 identical records: provers and checkers against RFC 6962 proofs computed
+	// independently, for sizes around and just above every power of two
+	c09.HugeLogs(r)
 }
 
 // sentinelWorld is a second closed world built around the zero hash: base hashes {zero, a, b}, every
@@ -534,6 +537,10 @@ func Replay(r *fw.Run, raw json.RawMessage) {
 	}
 	if c.Kind == "overlap" {
 		c09.Overlap(r)
+		return
+	}
+	if c.Kind == "huge" {
+		c09.HugeLogs(r)
 		return
 	}
 	if c.Note == "honest" {
